@@ -144,6 +144,7 @@ def case_strategy():
                 "shadow": draw(st.sampled_from([None, None, None, "type", "isinstance", "tuple"])),
                 "mlstr": draw(st.sampled_from([None, None, None, "", "\\n    indented"])),
                 "private": host == "method" and draw(st.integers(0, 3)) == 0,
+                "future": draw(st.integers(0, 5)) == 0,
                 # how the body spells the recursion: the special `recurse`, the function's own name (a global, or a
                 # closure cell when the functions are built in a factory), or both
                 "recname": draw(st.sampled_from(["recurse", "recurse", "self", "both"])) if host == "func" else "recurse"}
@@ -240,6 +241,9 @@ def render(spec, real):
     body = [f"{ind}acc = []", f"{ind}v = 1"]
     if spec.get("shadow"):
         body.append(f"{ind}{spec['shadow']} = 5")
+    if spec.get("future"):
+        # under `from __future__ import annotations` this annotation is never evaluated
+        body += [f"{ind}def _ann(q: NotDefinedAnywhere = 0):", f"{ind}    return q", f"{ind}acc.append(_ann())"]
     if spec.get("private") and method:
         body.append(f"{ind}acc.append(self.__priv)")  # a class-private name (mangled by the compiler)
     if spec.get("mlstr"):
@@ -275,10 +279,14 @@ def render(spec, real):
             body += render_stmt(kind, e2, ind)
         emit_def([], "x: TokG", body)
     src = "\n".join(lines) + "\n"
+    if spec.get("future") and not spec["closure"]:
+        src = "from __future__ import annotations\n" + src
     if spec["closure"]:
         # wrap everything in a factory so that CV is a closure cell
         src = "def make(ACV, zCV):\n" + "".join("    " + l + "\n" for l in src.splitlines()) + (
             "    return Host\n" if method else "    return f\n")
+        if spec.get("future"):
+            src = "from __future__ import annotations\n" + src
     return src
 
 
